@@ -174,12 +174,18 @@ class MetricReceiver(CarbonServerProtocol, TimeoutMixin):
       return
     if datapoint[1] != datapoint[1]:  # filter out NaN values
       return
+    try:
+      timestamp = int(datapoint[0])
+    except (ValueError, OverflowError):  # NaN or infinite timestamp
+      log.listener('invalid timestamp received for %s, ignoring' % metric)
+      return
     # use current time if none given: https://github.com/graphite-project/carbon/issues/54
-    if int(datapoint[0]) == -1:
+    if timestamp == -1:
       datapoint = (time.time(), datapoint[1])
+      timestamp = int(datapoint[0])
     res = settings.MIN_TIMESTAMP_RESOLUTION
     if res:
-      datapoint = (int(datapoint[0]) // res * res, datapoint[1])
+      datapoint = (timestamp // res * res, datapoint[1])
     events.metricReceived(metric, datapoint)
     self.resetTimeout()
 
